@@ -1470,7 +1470,7 @@ class Key(object):
         """
         flagbyte = b'\xe0' if self.compressed else b'\xc0'
         # BIP38 hashes the address of the key itself: do not depend on an address requested from this object earlier
-        address = self.address() if isinstance(self, HDKey) else self.address(script_type='p2pkh', encoding='base58')
+        address = self.address(script_type='p2pkh', encoding='base58')
         return bip38_encrypt(self.private_hex, address, password, flagbyte)
 
     def wif(self, prefix=None):
